@@ -144,7 +144,7 @@ def _work(args):
                 agg["nondet"].append(index)
         agg["n"] += 1
         if agg.get("digests") is not None:
-            agg["digests"].append((index, out.digest))
+            agg["digests"].append((index, out.digest, _sd8(out), bool(out.nontrivial), sorted(out.probes.items()), sorted(out.faults.items()), len(out.violations)))
         agg["subruns"] += out.subruns
         for k, v in out.faults.items():
             agg["faults"][k] = agg["faults"].get(k, 0) + v
